@@ -3,6 +3,6 @@ CONTRACTS = list(_C)
 
 MANIFEST = {
     "category": "proof",
-    "text": "Reader functions over the symbolic link graph, without assuming the file well-formed below the entity: H5Reader.fetch_children lists an entry iff its container and the entry are stored, with the kind of its container, for every presence pattern of the members (a missing optional container never makes the listing fail or hides the others); fetch_attributes returns None iff the entity is not stored, reports exactly the stored attributes, reads type attributes / property groups iff the Type link / block exists; fetch_array_attribute returns None exactly when the entity or the dataset is missing; Workspace.fetch_or_create_root without a Root link loads every stored group (live-list walk). The whole-file single-deletion sweep is a bounded stand-in (that part of the quantifier is fault enumeration, another family).",
+    "text": "Reader functions over the symbolic link graph, without assuming the file well-formed below the entity: H5Reader.fetch_children lists an entry iff its container and the entry are stored, with the kind of its container, for every presence pattern of the members (a missing optional container never makes the listing fail or hides the others); fetch_attributes returns None iff the entity is not stored, reports exactly the stored attributes, reads type attributes / property groups iff the Type link / block exists; fetch_array_attribute returns None exactly when the entity or the dataset is missing; Workspace.fetch_or_create_root without a Root link loads every stored group (live-list walk). The whole-file single-deletion sweep is a bounded stand-in (that part of the quantifier is fault enumeration, another family). Round-5 additions: the reference file also holds a 2-D grid, block model, surface and octree with cell data and boolean data; every single deletion is run in both tiers (no sampling), including each type's colour / value map dataset.",
     "note": "Shape bound inside the proofs: the five member names the layout knows, at most one entry per child container, three attributes; h5py iteration order among symbolic names unspecified; class dispatch and constructors above the reader are only in the bounded sweep.",
 }
